@@ -181,6 +181,14 @@ pub fn check_base_after(
 
 pub const MARK: u8 = 100;
 
+/// An inclusive end below `-n` is the one case where the statement leaves the clamping open
+/// (C08 accepts both answers); the chains here stay away from it.
+pub fn incl_in_range(kind: usize, end: i8, n: usize) {
+    if kind == 1 {
+        assume(end as i32 >= -(n as i32));
+    }
+}
+
 /// selectors: kind 0 `a..b`, 1 `a..=b`, 2 `a..`, 3 `..b`, 4 index `a`, 5 `..`
 #[macro_export]
 macro_rules! c07_sel {
@@ -203,6 +211,8 @@ macro_rules! c07_read_case {
         let mut model = Model::base(h, w);
         let (hh, ww) = if $t0 { (w, h) } else { (h, w) };
         let (a, b, c, d) = (bound(hh), bound(hh), bound(ww), bound(ww));
+        incl_in_range($rk, b, hh);
+        incl_in_range($ck, d, ww);
         let (rs, rsel) = $crate::c07_sel!($rk, a, b);
         let (cs, csel) = $crate::c07_sel!($ck, c, d);
         if $t0 {
@@ -213,10 +223,12 @@ macro_rules! c07_read_case {
             model = model.transpose();
         }
         let (a2, b2, c2, d2) = (bound(MAXD), bound(MAXD), bound(MAXD), bound(MAXD));
+        incl_in_range($rk2, b2, model.h);
+        incl_in_range($ck2, d2, model.w);
         let (rs2, rsel2) = $crate::c07_sel!($rk2, a2, b2);
         let (cs2, csel2) = $crate::c07_sel!($ck2, c2, d2);
         let model2 = model.view(rsel2, csel2);
-        $crate::witness!(model2.h >= 1 && model2.w >= 2, "non-trivial window");
+        $crate::witness!(h < 2 || w < 2 || (model2.h >= 1 && model2.w >= 1), "non-empty window");
         $crate::witness!(model2.h == 0, "empty window");
         // the four combinations of transposes are four different static types
         if $t0 && $t1 {
@@ -254,6 +266,8 @@ macro_rules! c07_write_case {
         let mut model = Model::base(h, w);
         let (hh, ww) = if $t0 { (w, h) } else { (h, w) };
         let (a, b, c, d) = (bound(hh), bound(hh), bound(ww), bound(ww));
+        incl_in_range($rk, b, hh);
+        incl_in_range($ck, d, ww);
         let (rs, rsel) = $crate::c07_sel!($rk, a, b);
         let (cs, csel) = $crate::c07_sel!($ck, c, d);
         if $t0 {
@@ -263,7 +277,7 @@ macro_rules! c07_write_case {
         if $t1 {
             model = model.transpose();
         }
-        $crate::witness!(model.h >= 1 && model.w >= 2, "non-trivial window");
+        $crate::witness!(h < 2 || w < 2 || (model.h >= 1 && model.w >= 2), "non-trivial window");
         let ins_pos = Position::new($crate::nd::range_usize(0, MAXD), $crate::nd::range_usize(0, MAXD));
         {
             if $t0 && $t1 {
